@@ -25,6 +25,7 @@ def main():
     ap.add_argument('--tier', default=os.environ.get('VERIF_TIER', 'quick'), choices=['quick', 'thorough'])
     ap.add_argument('--replay', default=None)
     ap.add_argument('--json', action='store_true', help='replay: print the observation as JSON (used for the determinism check)')
+    ap.add_argument('--history', action='store_true', help='replay: first execute the cases that precede the recorded one in its shard')
     ap.add_argument('--workers', type=int, default=int(os.environ.get('VERIF_WORKERS', '16')))
     ap.add_argument('--no-confirm', action='store_true')
     ap.add_argument('--no-evidence', action='store_true', help='do not (re)write evidence/<ID>.json (used by the mutation tool)')
@@ -32,7 +33,7 @@ def main():
     setup_paths()
     from mc import core
     if args.replay:
-        sys.exit(core.replay(args.prop, args.replay, as_json=args.json))
+        sys.exit(core.replay(args.prop, args.replay, as_json=args.json, history=args.history))
     sys.exit(core.run_check(args.prop, args.tier, workers=args.workers, confirm=not args.no_confirm,
                             write_evidence=not args.no_evidence))
 
